@@ -198,6 +198,27 @@ def exact_ref(ps, ls, q):
     return float(area)
 
 
+def wrapped_fold(ps, ls, q, bits):
+    """What `PointIsotherm.spreading_pressure_at` returns when the loading column is stored as an UNSIGNED integer of `bits` bits (known finding S62-C11a):
+    the formula of the method in double arithmetic, with the loading difference `loadings[i + 1] - loadings[i]` of every COMPLETED segment (both end
+    points below the query) taken modulo 2^bits, as numpy does for unsigned scalars; the last, partial segment uses the (float) interpolated loading and
+    does not wrap.  Returns (value, number of completed segments whose loading goes down); None when the query is not above the first point."""
+    n_points = sum(1 for p in ps if p < q)
+    if n_points == 0:
+        return None
+    area, wraps = float(ls[0]), 0
+    for i in range(n_points - 1):
+        d = (int(ls[i + 1]) - int(ls[i])) % (1 << bits)
+        wraps += int(ls[i + 1]) < int(ls[i])
+        slope = float(d) / (ps[i + 1] - ps[i])
+        area += slope * (ps[i + 1] - ps[i]) + (float(ls[i]) - slope * ps[i]) * math.log(ps[i + 1] / ps[i])
+    j = n_points - 1
+    lq = float(interp_exact([frac(x) for x in ps], [frac(x) for x in ls], frac(q)))
+    slope = (lq - ls[j]) / (q - ps[j])
+    area += slope * (q - ps[j]) + (ls[j] - slope * ps[j]) * math.log(q / ps[j])
+    return area, wraps
+
+
 def cond_floor(ps, ls, q):
     """Rounding floor of the library's own formula, Σ slope_i Δp_i + intercept_i ln(p_{i+1}/p_i): the argument of each logarithm carries one
     rounding, i.e. an absolute error of one ulp of 1 in the logarithm, times the intercept; each product carries one more.  For a steep chord
@@ -931,10 +952,18 @@ def run(ck):
     # increasing and additive, p dΠ/dp = n inside the segments) is checked on integer-typed pressure and / or loading columns, WITHOUT loading / material
     # arguments (with and without a pressure unit), on both branches, and against the twin isotherm holding the same numbers as float64.
     # The data of the caller and the stored columns (values and dtypes) are the same after the queries.
-    # TODO (candidate defects of the unchanged tree, kept out of the generator, reported): (1) UNSIGNED integer loading columns with a loading that goes
-    # down between two rows: `loadings[i + 1] - loadings[i]` wraps around in spreading_pressure_at (uint8 [3, 5, 4, 8, 9, 10]: Π off by a factor 5);
-    # unsigned columns are generated with non-decreasing loadings only.  (2) float32 / float16 columns: the fold runs in that precision (5.7e-8 / 3e-4
-    # relative on exactly representable data); not generated.
+    # Triage of the two candidates of round 8 (T3-C11):
+    # (1) KNOWN FINDING S62-C11a — an UNSIGNED integer loading column with a loading that goes down between two rows: `loadings[i + 1] - loadings[i]` wraps
+    #     around in spreading_pressure_at (uint8 pressures [1, 2, 3, 5], loadings [3, 5, 4, 8]: Π(4) = 57.36 instead of 8.956).  A non-monotone loading is
+    #     inside the quantifier ("increasing data" = increasing pressures: the interpolant and its integral are defined for any loadings, and the signed /
+    #     float generators of sections 3-3d always contained them).  The region is generated; a failing case carries the keys `loading_storage` /
+    #     `reply` ONLY when the loading column is unsigned, a completed segment goes down and the reply equals `wrapped_fold` (the method's formula with the
+    #     differences taken modulo 2^width) to 1e-9 — any other wrong value on such a column stays a violation.  These cases are counted apart from the
+    #     caps of `fail_i`, so they cannot use up the slots of another failure of the same clause.
+    # (2) NOT a violation — float32 / float16 columns: the method computes in the precision of the stored columns (5e-8 / 3e-4 relative), i.e. the reply is
+    #     the integral to within the rounding of the DATA TYPE THE CALLER CHOSE; the property states an identity, the 1e-9 of this section is the
+    #     measured accuracy for double / integer storage, not part of the property.  Narrow float columns are not generated (a tolerance in units of the
+    #     storage epsilon would add nothing that the float64 / integer columns do not already decide).
     INT_KINDS = ["python-int list", "int64", "int32", "int16", "int8", "uint8", "uint16", "uint32", "uint64", "Int64 (pandas nullable)", "object"]
     reqs4, ctx4 = [], []
     for i in range(ck.n(36, 200)):
@@ -953,7 +982,7 @@ def run(ck):
             if len(ps) < 2:
                 continue
             if cols in ("both", "loading"):
-                if unsigned or rng.random() < 0.6:
+                if rng.random() < (0.5 if unsigned else 0.6):
                     ls = [int(v) for v in np.cumsum([rng.randint(0 if t else 1, 9) for t in range(len(ps))])]          # non-decreasing, positive
                 else:
                     ls = [rng.randint(1, 30)] + [rng.randint(0, 30) for _ in ps[1:]]                                   # any non-negative whole numbers
@@ -1012,7 +1041,7 @@ def run(ck):
     except Exception as e:
         reps4 = None
         ck.broken.append({"step": "driver SpreadPoint (integer-typed columns)", "what": str(e)[:500]})
-    nfail4, n_dis4, last, worst4 = {}, 0, None, {"reference": 0.0, "float twin": 0.0, "p dPi/dp - n": 0.0}
+    nfail4, n_dis4, n_wrap4, last, worst4 = {}, 0, 0, None, {"reference": 0.0, "float twin": 0.0, "p dPi/dp - n": 0.0}
 
     def fail_i(clause, detail):
         key = (clause, detail["branch"], detail["stored_as"], detail["integer_columns"])
@@ -1039,7 +1068,20 @@ def run(ck):
         ck.count(("point-int", base4["stored_as"], base4["integer_columns"], br, tuple(ps), tuple(ls), q), bucket=f"point-integer-columns:{base4['integer_columns']}:{br}:k={min(k, 3)}",
                  sample={**detail, "implementation": got, "reference": ref} if idx % 199 == 0 else None)
         if isinstance(got, tuple) or not abs(got - ref) <= 1e-9 * abs(ref) + floor:
-            fail_i("integral of the interpolant", {**detail, "got": got, "reference": ref, "rounding_floor_of_the_formula": floor})
+            fdet = {**detail, "got": got, "reference": ref, "rounding_floor_of_the_formula": floor}
+            wf = None
+            if base4["stored_as"].startswith("uint") and base4["integer_columns"] in ("both", "loading") and not isinstance(got, tuple):
+                wf = wrapped_fold(ps, ls, q, int(base4["stored_as"][4:]))
+            if wf is not None and wf[1] > 0 and abs(got - wf[0]) <= 1e-9 * abs(wf[0]):
+                # S62-C11a: exactly the wrap-around of the unsigned loading differences (predicted value reproduced)
+                n_wrap4 += 1
+                if n_wrap4 <= 4:
+                    ck.fail_case({"class": "PointIsotherm", "clause": "integral of the interpolant", "branch": br, "data": "integer-typed columns",
+                                  "integer_columns": base4["integer_columns"], "loading_storage": "unsigned integer",
+                                  "reply": "fold with the loading differences of completed segments wrapped modulo 2^width"},
+                                 {**fdet, "predicted_by_wrapped_fold": wf[0], "completed_segments_with_decreasing_loading": wf[1]})
+            else:
+                fail_i("integral of the interpolant", fdet)
             last = None
             continue
         worst4["reference"] = max(worst4["reference"], abs(got - ref) / max(abs(ref), 1e-300))
@@ -1096,7 +1138,7 @@ def run(ck):
             if same is not True:
                 fail_i("data unchanged by the query", {**detail, "stored_columns_before": stored_before.to_dict("list"), "stored_columns_after": iso.data_raw.to_dict("list"),
                                                        "dtypes_after": [str(t) for t in iso.data_raw.dtypes], "comparison": same})
-    ck.cov["point_integer_columns"] = {"cases": len(ctx4), "correspondence_disagreements": n_dis4, "worst": {k: float(f"{v:.3g}") for k, v in worst4.items()}}
+    ck.cov["point_integer_columns"] = {"cases": len(ctx4), "correspondence_disagreements": n_dis4, "queries_reproducing_S62-C11a_unsigned_wraparound": n_wrap4, "worst": {k: float(f"{v:.3g}") for k, v in worst4.items()}}
 
     # ------------------------------------------------------------------ 4. model isotherm: foreign units / modes converted first
     for name in ("Langmuir", "Toth"):
